@@ -278,7 +278,7 @@ fn run_child(bin: &Path, model: &Path, lines: &[String], cfg: &RunCfg, log: Opti
 }
 
 /// single worker, no delays, stdin closed only after every answer has been read
-fn reference(bin: &Path, model: &Path, lines: &[String]) -> RunOut {
+fn reference(bin: &Path, model: &Path, lines: &[String], timeout: Duration) -> RunOut {
     let cfg = RunCfg {
         jobs: 1,
         final_exit: false,
@@ -288,7 +288,7 @@ fn reference(bin: &Path, model: &Path, lines: &[String]) -> RunOut {
         pace: Pace::EndAfterDrain(0),
         busy: 0,
     };
-    run_child(bin, model, lines, &cfg, None, Duration::from_secs(120))
+    run_child(bin, model, lines, &cfg, None, timeout)
 }
 
 fn batch_size(rng: &mut Rng, thorough: bool) -> usize {
@@ -363,7 +363,10 @@ pub fn run(_kind: &str, ctx: &Ctx, out: &mut dyn Write) {
                 lines[dst] = lines[src].clone();
             }
         }
-        let rf = reference(&bin, &model, &lines);
+        // a hanging implementation must not stall the whole check: after the first hang the
+        // limit drops, after three batches with hangs the run stops (the cases so far are judged)
+        let timeout = Duration::from_secs(if hang_batches > 0 { 8 } else if thorough { 240 } else { 60 });
+        let rf = reference(&bin, &model, &lines, timeout);
         let cfgs: Vec<RunCfg> = (0..repeats)
             .map(|r| {
                 let mut c = gen_cfg(&mut rng, n, thorough, cores);
@@ -376,9 +379,6 @@ pub fn run(_kind: &str, ctx: &Ctx, out: &mut dyn Write) {
                 c
             })
             .collect();
-        // a hanging implementation must not stall the whole check: after the first hang the
-        // limit drops, after three batches with hangs the run stops (the cases so far are judged)
-        let timeout = Duration::from_secs(if hang_batches > 0 { 8 } else if thorough { 240 } else { 60 });
         let outs: Vec<RunOut> = std::thread::scope(|sc| {
             let hs: Vec<_> = cfgs
                 .iter()
@@ -395,7 +395,7 @@ pub fn run(_kind: &str, ctx: &Ctx, out: &mut dyn Write) {
                 .collect();
             hs.into_iter().map(|h| h.join().unwrap()).collect()
         });
-        if outs.iter().any(|o| o.status == "timeout") {
+        if rf.status == "timeout" || outs.iter().any(|o| o.status == "timeout") {
             hang_batches += 1;
         }
         for (c, o) in cfgs.iter().zip(outs.iter()) {
